@@ -19,6 +19,9 @@ func TestC17(t *testing.T) {
 	rapid.Check(t, func(rt *rapid.T) {
 		c := gen.Draw(rt, "case")
 		c.Cfg.Callbacks = n % 256
+		// the callback-free reference run re-installs comparators with SetCollection
+		// after every load; KeyCompareForCollection is installed only when its bit is set
+		c.Cfg.CmpViaSet = true
 		n++
 		v, ev := guarded("C17", c, func() (*Violation, map[string]int) { return runC17(c) })
 		if v != nil {
@@ -47,6 +50,7 @@ func TestC17Fault(t *testing.T) {
 		c := gen.Draw(rt, "case")
 		c.Cfg.Mem = false
 		c.Cfg.Profile = "C17-fault"
+		c.Cfg.CmpViaSet = true
 		c.Cfg.Callbacks = rapid.IntRange(1, 255).Draw(rt, "callbacks") &^ CbRefCount
 		if c.Cfg.Callbacks == 0 {
 			c.Cfg.Callbacks = CbAfterRead
